@@ -75,7 +75,7 @@ def tricky(o):
 def run(pid, tier, replay):
     chk = core.Check(pid, "model_checking", tier)
     rm.local_known(chk, ["C34"])
-    binp = core.build("xml")
+    binp = rm.build("xml")
     if replay:
         return do_replay(chk, binp, replay)
     rm.stage(chk, "start")
@@ -95,7 +95,7 @@ def run(pid, tier, replay):
     texts = []
     if add_trees(raw, obs, texts) != n:
         raise core.ToolError("harness answered fewer lines than the %d cases" % n)
-    nr = 800 if quick else 60000
+    nr = 800 if quick else 30000
     rraw = chk.path("obs_rand_raw.ndjson")
     core.run_bin(binp, ["xml-rand", nr, chk.seed, rraw])
     add_trees(rraw, obs, texts)
